@@ -40,4 +40,74 @@ META = {
                 "harness. The flag parsing of gopkg.in/Nextdoor/cli.v1 itself is not modelled.",
         "technique": "Lean 4 theorem over a regenerated (Go AST -> Lean) fragment + decision-table theorem + differential correspondence",
     },
+    "C03": {
+        "text": "Kernel-checked theorems over ALL event lists of the client model: status positions never decrease, each is the running maximum of the session's initial position and the ledger values fed so far (never a position taken from received data), every (re)start of replication requests the largest COMMIT received (or the IdentifySystem position right after error recovery); the write sites of the acknowledgement state are regenerated from client.go and compared by decide. The model is tied to the real Replicator goroutine by differential correspondence against scripted connection fakes.",
+        "note": 'Trusted: Lean kernel, factgen, harness fakes for conn.Manager/Conn; connection errors and cancellation are not modelled.',
+        "technique": 'Lean 4 invariant proofs over client event traces + regenerated write-site facts + differential correspondence',
+    },
+    "C04": {
+        "text": 'Kernel-checked master batcher theorem (unbounded induction over message/tick sequences, any flush order, any batch kind satisfying laws proved for the generic, Kinesis and Kafka batches): per partition key, dispatched payloads followed by the open batch are exactly the accepted input records in order; every batch has one key; per-batch and global transaction-count accounting; the batcher never takes its fatal branch. Batcher and batches are tied to the code by stepping the real StartBatching goroutine; the end-to-end multiset claim is judged on the assembled real stages by Lean-evaluated monitors.',
+        "note": 'Trusted: Lean kernel, harness (parking context, fakes), Go map/heap order as explicit inputs. Composition with filter/partitioner/marshaller/workers is monitored on real runs, not one composed theorem.',
+        "technique": 'Lean 4 refinement/invariant proof over the batcher model + differential correspondence + Lean-evaluated end-to-end monitors',
+    },
+    "C05": {
+        "text": "Kernel-checked corollaries of the master batcher theorem: batch payloads are sublists of the input in order; with partition routing every batch of a key goes to worker crc32(key) mod workers and the batches handed to that worker carry the key's records in delivery order; with one worker and one key the whole stream is in order. crc32 is implemented in Lean and compared with hash/crc32.",
+        "note": 'Trusted: as C04; worker sequentiality and channel FIFO are the Go runtime (observed by the pipeline monitor at the sink fakes).',
+        "technique": 'Lean 4 theorems over the batcher model + differential correspondence + end-to-end order monitor',
+    },
+    "C07": {
+        "text": 'Kernel-checked theorems over all event lists: every forwarded message carries the transaction and delivery key of the latest forwarded BEGIN, keys of different BEGINs differ (decimal rendering proved injective), at most one COMMIT per key, a BEGIN without preceding COMMIT is dropped, the connection closed and the stream re-requested from the last COMMIT. Tied to the real client by differential correspondence (observed key nanoseconds fed to the model).',
+        "note": 'Trusted: as C03; PG-stream grammar and strictly increasing clock per transaction id are hypotheses.',
+        "technique": 'Lean 4 invariant proofs over client event traces + differential correspondence',
+    },
+    "C09": {
+        "text": "Kernel-checked theorems about an index-faithful model of parselogical.parse (every Go slice expression can fail in the model): parse_total - no input makes a slice go out of range, termination is the well-founded recursion - and the round trip parse (render m) = view m for every well-formed change of a Lean specification of test_decoding's output grammar. Model tied to the code by differential correspondence on rendered, mutated and raw inputs; the Go generator's encoder is cross-checked against the Lean render on every generated change.",
+        "note": 'Trusted: Lean kernel, harness, TestDecoding.render as a faithful description of contrib/test_decoding (written from its source).',
+        "technique": 'Lean 4 round-trip and totality proofs over a byte-level parser model + differential correspondence',
+    },
+    "C10": {
+        "text": 'Kernel-checked theorems: the column decision table (DELETE old only; old next to new only where changed and enabled; unchanged TOAST shows the previous value), header fields copied unchanged, LSN hi/lo hex formatting round-trips for all x < 2^64, and a pool-level model showing that pooled maps/colsTemp/buffers cannot leak between calls. Tied to the real Marshaller goroutine by correspondence on sequences of changing shapes with forced pool eviction and a shuffled re-run; outputs parsed back with encoding/json.',
+        "note": 'Trusted: Lean kernel, harness, goccy/go-json encoding, Go time formatting. Full table is false at one literal (F5, recorded).',
+        "technique": 'Lean 4 decision-table and round-trip proofs + differential correspondence over message sequences',
+    },
+    "C11": {
+        "text": 'Kernel-checked theorems over all outcome sequences: written implies every record was accepted in some call (under the AWS response contract, shown necessary by a witness), each retry carries exactly the failed records in order (in-place compaction proved equal to filtering), nothing is reported on give-up or cancellation. Tied to the real KinesisTransporter by correspondence with a scripted KinesisAPI (failure subsets enumerated exhaustively for small batches in the thorough tier).',
+        "note": "Trusted: Lean kernel, harness fake, cenkalti/backoff as 'n+1 calls'.",
+        "technique": 'Lean 4 induction over retry attempts + differential correspondence with enumerated failure subsets',
+    },
+    "C12": {
+        "text": 'Kernel-checked theorems: object key format and injectivity (decimal rendering proved injective), body = records one per line for every buffer-reuse state, every retry re-reads the body from offset 0 and written implies the last attempt consumed all of it, nothing reported on give-up. Tied to the real S3Transporter by correspondence with a fake S3 that reads scripted prefixes and gunzips with compress/gzip.',
+        "note": 'Trusted: Lean kernel, harness fake, pgzip/bytes.Buffer Reset semantics (exercised by the correspondence).',
+        "technique": 'Lean 4 string/state-machine proofs + differential correspondence',
+    },
+    "C13": {
+        "text": 'Kernel-checked theorems about a model of the confirmation accounting with the broker as adversary and the closeHandler goroutine as a concurrently scheduled actor: written implies every message has a positively confirmed publish consumed for that batch; after any channel close the worker retries on a fresh channel or terminates (no wedge). Tied to the real RabbitMQTransporter by exact correspondence with scripted wabbit fakes and a log-hook scheduler.',
+        "note": 'Trusted: Lean kernel, harness fakes/scheduler granularity, amqp tag-order contract.',
+        "technique": 'Lean 4 proofs over an adversarial broker state machine + differential correspondence',
+    },
+    "C14": {
+        "text": 'Kernel-checked theorems: written iff the producer accepted the whole batch and shutdown was not requested first; any rejection makes the worker stop the process with nothing reported; key per partition method (method table regenerated from source); over-size messages dropped but counted. Tied to the real KafkaTransporter/KafkaBatch by correspondence with a fake SyncProducer.',
+        "note": 'Trusted: Lean kernel, harness fake, sarama ByteSize as measured input.',
+        "technique": 'Lean 4 decision-logic proofs + regenerated method table + differential correspondence',
+    },
+    "C15": {
+        "text": "Kernel-checked invariants by induction over Add sequences (Kinesis: <= 500 records, bytes = sum of data+key <= 5 MiB, each record <= 1 MiB; generic/Kafka count limit; Kafka byte limit), lifted to every batch the batcher dispatches; can't-fit is not lost, too-big is counted and has its statistic; the constants and the batcher's error switch are regenerated from source and compared by decide. Real batches are driven directly around every boundary and through the real batcher.",
+        "note": 'Trusted: Lean kernel, factgen, harness.',
+        "technique": 'Lean 4 invariant proofs + regenerated constants (decide) + differential correspondence at limit boundaries',
+    },
+    "C16": {
+        "text": "Kernel-checked theorems about the tick decision for every open set, clock reading and Go map/heap order: every due batch (empty, idle, too old, full) is flushed; what is left is below the memory limit; pressure flushes go largest-first. The real tick handler is fired by the harness at chosen points and its flush set compared. PARTIAL: that a tick is handled within one tick period is Go's ticker/select, not exhibited by the model.",
+        "note": 'Trusted: Lean kernel, harness; timing of ticker delivery is outside the model.',
+        "technique": 'Lean 4 decision-logic proofs + differential correspondence of the real tick handler',
+    },
+    "C18": {
+        "text": 'Kernel-checked theorems: a reply-requested keepalive is answered before the next read (exact, over all event lists); in a logical-time timer model the gap between status updates is <= progress interval + receive timeout, <= progress interval while blocked on output. The action order is compared exactly with the real client; real gaps are measured. PARTIAL: scheduler/timer latency is not modelled.',
+        "note": 'Trusted: Lean kernel, harness; timer assumptions stated in Props/C18.',
+        "technique": 'Lean 4 invariant proofs (action order exact, durations in logical time) + differential correspondence',
+    },
+    "C19": {
+        "text": 'Kernel-checked theorems over every interleaving of ingest check / locked add / reporter scan with arbitrary clock readings: per statistic identity and window, reported + held = recorded; each recorded statistic is dropped-late, held or reported in exactly one window; histogram reports carry sum/avg/max/min of exactly the covered values; the aggregate key is injective on the regenerated table of statistics pg-bifrost emits. Tied to the real aggregator through the verif constructor with an injected clock that forces the check/scan/add race.',
+        "note": 'Trusted: Lean kernel, factgen, harness clock scheduler; int64 as Int.',
+        "technique": 'Lean 4 induction over interleaved atomic steps + regenerated table (decide) + differential correspondence',
+    },
 }
